@@ -162,6 +162,41 @@ class Canon(ast.NodeTransformer):
                         continue
             i += 1
 
+    # -- `table = {"a": self.f, "b": self.g}` ... `x = table[key](args)`: the statement becomes the if/elif chain it abbreviates
+    #    (`if key == "a": x = self.f(args) elif key == "b": x = self.g(args) else: raise KeyError(key)`)
+    def _method_table_dispatch(self, stmts, tables):
+        import copy
+        for st in stmts:
+            if isinstance(st, ast.Assign) and len(st.targets) == 1 and isinstance(st.targets[0], ast.Name) and isinstance(st.value, ast.Dict) \
+                    and st.value.keys and all(isinstance(k, ast.Constant) for k in st.value.keys) and all(
+                        isinstance(v, ast.Attribute) and isinstance(v.value, ast.Name) and v.value.id == "self" for v in st.value.values):
+                tables[st.targets[0].id] = st.value
+        i = 0
+        while i < len(stmts):
+            st = stmts[i]
+            if isinstance(st, (ast.Assign, ast.Expr, ast.Return)) and st.value is not None:
+                calls = [c for c in ast.walk(st) if isinstance(c, ast.Call) and isinstance(c.func, ast.Subscript) and isinstance(c.func.value, ast.Name)
+                         and c.func.value.id in tables]
+                if len(calls) == 1 and not any(isinstance(n, (ast.Lambda, ast.ListComp, ast.GeneratorExp, ast.DictComp, ast.SetComp)) for n in ast.walk(st)):
+                    tab = tables[calls[0].func.value.id]
+                    key = calls[0].func.slice
+                    chain = None
+                    for k, v in reversed(list(zip(tab.keys, tab.values))):
+                        new = copy.deepcopy(st)
+                        for c in ast.walk(new):
+                            if isinstance(c, ast.Call) and isinstance(c.func, ast.Subscript) and isinstance(c.func.value, ast.Name) \
+                                    and c.func.value.id == calls[0].func.value.id:
+                                c.func = copy.deepcopy(v)
+                        test = ast.Compare(left=copy.deepcopy(key), ops=[ast.Eq()], comparators=[copy.deepcopy(k)])
+                        orelse = [chain] if chain is not None else [ast.Raise(exc=ast.Call(func=ast.Name(id="KeyError", ctx=ast.Load()), args=[copy.deepcopy(key)],
+                                                                                          keywords=[]), cause=None)]
+                        chain = ast.If(test=test, body=[new], orelse=orelse)
+                        ast.copy_location(chain, st)
+                    stmts[i] = chain
+                    ast.fix_missing_locations(chain)
+                    self.counts["method-table"] = self.counts.get("method-table", 0) + 1
+            i += 1
+
     def _arms(self, st):
         """statement lists of all arms of an if/elif/else chain that ends in an else; None if it does not"""
         arms = [st.body]
@@ -201,6 +236,12 @@ class Canon(ast.NodeTransformer):
                 b = getattr(n, field, None)
                 if isinstance(b, list) and b and isinstance(b[0], ast.stmt):
                     self._method_value_dispatch(b)
+        tables = {}
+        for n in ast.walk(node):
+            for field in ("body", "orelse", "finalbody"):
+                b = getattr(n, field, None)
+                if isinstance(b, list) and b and isinstance(b[0], ast.stmt):
+                    self._method_table_dispatch(b, tables)
         return node
 
     def visit_If(self, node):
